@@ -102,7 +102,9 @@ theorem applyRegex_hosts (cfg : Cfg) (hfix : cfg.fixRemoveDepth = true) (env : E
     target; numbers below 10^15) the hosts pdsh goes on with are
         targets.filter (· ∉ excluded) |>.filter (passes every filter)
     with the targets in command-line order, multiplicities kept (`specWords`; `expand₁ = expand₂`
-    for one-bracket words, `expand₂_oneBracket`).  `cliFinal` is `cliWords` on the split options. -/
+    for one-bracket words, `expand₂_oneBracket`).  `cliFinal` is `cliWords` on the split options.
+    Holds for the code as found AND with F02-2BR repaired (`cfg.fix2Br`, re-expansion before the
+    exclusions and filters; `Domain.entries2` is the hypothesis the repaired order adds). -/
 theorem exclusion_correct (cfg : Cfg) (hD1 : cfg.fixDeleteAll = true) (hD17 : cfg.fixIterSuffix = true)
     (hD19 : cfg.fixRemoveDepth = true) (env : Env) (ws : List CW) (hd : Domain cfg env ws) :
     cliWords cfg env (ws.map CW.text) = .ok (specWords env ws) :=
@@ -162,10 +164,16 @@ theorem d1_witness :
       ["foo1", "foo4"] := by
   decide
 
-/-- F02-2BR (open in every variant): `pdsh -w foo[1-2]-[0-1] -x foo1-0` contacts foo1-0 -/
+/-- F02-2BR: as found, `pdsh -w foo[1-2]-[0-1] -x foo1-0` contacts foo1-0 (the exclusion acts on the
+    first-level names `foo1-[0-1]`, `foo2-[0-1]`); repaired (findings/C02-2BR.patch: re-expansion first,
+    exclusion arguments name by name) foo1-0 is left out, and a two-bracket exclusion works as well -/
 theorem two_bracket_witness :
+    shownRes (cliFinal { Cfg.repaired with fix2Br := false } noEnv [.w "foo[1-2]-[0-1]".toList, .x "foo1-0".toList]) =
+      ["foo1-0", "foo1-1", "foo2-0", "foo2-1"] ∧
     shownRes (cliFinal Cfg.repaired noEnv [.w "foo[1-2]-[0-1]".toList, .x "foo1-0".toList]) =
-      ["foo1-0", "foo1-1", "foo2-0", "foo2-1"] := by
+      ["foo1-1", "foo2-0", "foo2-1"] ∧
+    shownRes (cliFinal Cfg.repaired noEnv [.w "foo[1-2]-[0-1]".toList, .x "foo[1-2]-0".toList]) =
+      ["foo1-1", "foo2-1"] := by
   decide
 
 end PdshVerif.C02
